@@ -730,3 +730,323 @@ theorem mergeField_sorted_indep (σ₁ σ₂ : List Entry → List Entry)
   exact str_lt_trichotomy _ _ (by simpa using hxy) (by simpa using hyx)
 
 end Nuts.C10
+
+namespace Nuts.C10
+
+/-! ## global statistics (`statsShelf`): document count and conflicted count -/
+
+def nextVersion : Option Meta → Nat
+  | none => 0
+  | some c => c.version + 1
+
+theorem applyEvent_version (cfg : Cfg) (evs : List Event) (cur : Option Meta) (e : Event) (d : Doc) (m : Meta)
+    (h : applyEvent cfg evs cur e = .ok (d, m)) : m.version = nextVersion cur := by
+  unfold applyEvent applyDocument at h
+  cases cur with
+  | none => simp only [Res.ok.injEq, Prod.mk.injEq] at h; rw [← h.2]; rfl
+  | some c =>
+    simp only at h
+    split at h
+    · simp only [Res.ok.injEq, Prod.mk.injEq] at h; rw [← h.2]; rfl
+    · split at h
+      · simp only [Res.ok.injEq, Prod.mk.injEq] at h; rw [← h.2]; rfl
+      · cases h
+      · cases h
+
+/-- the last version of a chain derived from `cur` is `nextVersion cur + length - 1` -/
+theorem applyAll_last_version (cfg : Cfg) (evs : List Event) :
+    ∀ (es : List Event) (cur : Option Meta) (c : List (Doc × Meta)), applyAll cfg evs cur es = .ok c →
+      ∀ p, c.getLast? = some p → p.2.version + 1 = c.length + nextVersion cur := by
+  intro es
+  induction es with
+  | nil => intro cur c h p hp; simp only [applyAll, Res.ok.injEq] at h; subst h; cases hp
+  | cons e es ih =>
+    intro cur c h p hp
+    unfold applyAll at h
+    split at h
+    · rename_i d m he
+      split at h
+      · rename_i rest hr
+        cases h
+        have hv := applyEvent_version cfg evs cur e d m he
+        cases rest with
+        | nil =>
+          simp only [List.getLast?_singleton, Option.some.injEq] at hp
+          subst hp
+          simp only [List.length_cons, List.length_nil]
+          omega
+        | cons q qs =>
+          rw [List.getLast?_cons_cons] at hp
+          have := ih (some m) (q :: qs) hr p hp
+          simp only [List.length_cons] at this ⊢
+          have hn : nextVersion (some m) = m.version + 1 := rfl
+          omega
+      · cases h
+      · cases h
+    · cases h
+    · cases h
+
+def keys (s : Store) : List String := s.dids.map (·.1)
+
+theorem alGet_of_mem {ν} : ∀ (l : List (String × ν)) (p : String × ν), (l.map (·.1)).Nodup → p ∈ l →
+    alGet l p.1 = some p.2 := by
+  intro l
+  induction l with
+  | nil => intro p _ hp; cases hp
+  | cons q qs ih =>
+    intro p hn hp
+    simp only [List.map_cons, List.nodup_cons] at hn
+    unfold alGet
+    rcases List.mem_cons.mp hp with rfl | hp'
+    · simp [List.find?_cons]
+    · have hne : q.1 ≠ p.1 := by
+        intro heq
+        exact hn.1 (heq ▸ List.mem_map.mpr ⟨p, hp', rfl⟩)
+      have : (q.1 == p.1) = false := by simpa using hne
+      simp only [List.find?_cons, this]
+      exact ih p hn.2 hp'
+
+theorem alGet_none_of_not_mem {ν} : ∀ (l : List (String × ν)) (k : String), k ∉ l.map (·.1) → alGet l k = none := by
+  intro l
+  induction l with
+  | nil => intro k _; rfl
+  | cons q qs ih =>
+    intro k hk
+    simp only [List.map_cons, List.mem_cons, not_or] at hk
+    unfold alGet
+    have : (q.1 == k) = false := by simp; exact fun e => hk.1 e.symm
+    simp only [List.find?_cons, this]
+    exact ih k hk.2
+
+theorem alGet_some_mem {ν} : ∀ (l : List (String × ν)) (k : String) (v : ν), alGet l k = some v → (k, v) ∈ l := by
+  intro l
+  induction l with
+  | nil => intro k v h; cases h
+  | cons q qs ih =>
+    intro k v h
+    unfold alGet at h
+    simp only [List.find?_cons] at h
+    by_cases hq : (q.1 == k) = true
+    · simp only [hq, Option.map_some, Option.some.injEq] at h
+      have : q.1 = k := by simpa using hq
+      have : q = (k, v) := by cases q; simp_all
+      rw [this]; exact List.mem_cons_self
+    · have hq' : (q.1 == k) = false := by simpa using hq
+      simp only [hq'] at h
+      exact List.mem_cons_of_mem _ (ih k v h)
+
+/-- removing key `k` from an association list with unique keys: lengths and filtered counts -/
+theorem filter_key_counts {ν} (P : ν → Bool) : ∀ (l : List (String × ν)) (k : String), (l.map (·.1)).Nodup →
+    l.length = (l.filter (fun p => !(p.1 == k))).length + (if (alGet l k).isSome then 1 else 0) ∧
+    (l.filter (fun p => P p.2)).length =
+      ((l.filter (fun p => !(p.1 == k))).filter (fun p => P p.2)).length +
+        (if (alGet l k).map P = some true then 1 else 0) := by
+  intro l
+  induction l with
+  | nil => intro k _; simp [alGet]
+  | cons q qs ih =>
+    intro k hn
+    simp only [List.map_cons, List.nodup_cons] at hn
+    obtain ⟨ih1, ih2⟩ := ih k hn.2
+    by_cases hq : (q.1 == k) = true
+    · have hqk : q.1 = k := by simpa using hq
+      have hnot : k ∉ qs.map (·.1) := hqk ▸ hn.1
+      have hnone := alGet_none_of_not_mem qs k hnot
+      have hget : alGet (q :: qs) k = some q.2 := by simp [alGet, List.find?_cons, hq]
+      rw [hnone] at ih1 ih2
+      simp only [Option.isSome_none, Bool.false_eq_true, if_false, Nat.add_zero, Option.map_none] at ih1 ih2
+      have ih2' : (qs.filter (fun p => P p.2)).length = ((qs.filter (fun p => !(p.1 == k))).filter (fun p => P p.2)).length := by
+        simpa using ih2
+      simp only [hget, Option.isSome_some, if_true, List.filter_cons, hq, Bool.not_true, Bool.false_eq_true,
+        if_false, List.length_cons, Option.map_some, Option.some.injEq]
+      refine ⟨by omega, ?_⟩
+      by_cases hP : P q.2 = true
+      · simp only [hP, if_true, List.length_cons]; omega
+      · simp only [hP, Bool.false_eq_true, if_false]; omega
+    · have hq' : (q.1 == k) = false := by simpa using hq
+      have hget : alGet (q :: qs) k = alGet qs k := by simp [alGet, List.find?_cons, hq']
+      simp only [hget, List.filter_cons, hq', Bool.not_false, if_true, List.length_cons]
+      refine ⟨by omega, ?_⟩
+      by_cases hP : P q.2 = true
+      · simp only [hP, if_true, List.length_cons]; omega
+      · simp only [hP, Bool.false_eq_true, if_false]; omega
+
+/-- store-level invariant: unique DID keys, every listed DID has events and satisfies `Inv`, and the two
+    counters are what the per-DID states imply -/
+structure StoreInv (cfg : Cfg) (s : Store) : Prop where
+  nodup : (keys s).Nodup
+  each : ∀ p ∈ s.dids, Inv cfg p.2 ∧ p.2.events ≠ []
+  docs : s.documentCount = s.dids.length
+  confl : s.conflictedCount = (s.dids.filter (fun p => p.2.conflicted)).length
+
+theorem storeInv_empty (cfg : Cfg) : StoreInv cfg {} :=
+  ⟨List.nodup_nil, (fun p hp => by cases hp), rfl, rfl⟩
+
+theorem get_inv (cfg : Cfg) (s : Store) (h : StoreInv cfg s) (id : String) : Inv cfg (s.get id) := by
+  unfold Store.get
+  cases hg : alGet s.dids id with
+  | none => exact inv_empty cfg
+  | some st => exact (h.each _ (alGet_some_mem _ _ _ hg)).1
+
+theorem keys_alPut (l : List (String × DidState)) (k : String) (v : DidState) (hn : (l.map (·.1)).Nodup) :
+    ((alPut l k v).map (·.1)).Nodup := by
+  unfold alPut
+  simp only [List.map_cons, List.nodup_cons]
+  constructor
+  · intro hm
+    obtain ⟨p, hp, hpk⟩ := List.mem_map.mp hm
+    have := (List.mem_filter.mp hp).2
+    simp [hpk] at this
+  · exact List.Nodup.sublist (List.Sublist.map _ List.filter_sublist) hn
+
+theorem add_storeInv (cfg : Cfg) (s s' : Store) (e : Event) (hs : StoreInv cfg s) (h : add cfg s e = .ok s') :
+    StoreInv cfg s' := by
+  unfold add at h
+  simp only at h
+  split at h
+  · cases h
+  · cases h
+  · cases h; exact hs
+  · rename_i st' hadd
+    cases h
+    have hinv := get_inv cfg s hs e.doc.id
+    obtain ⟨hinv', hperm⟩ := addDid_inv cfg (s.get e.doc.id) e hinv st' hadd
+    obtain ⟨hlen, hcnt⟩ := filter_key_counts (fun st : DidState => st.conflicted) s.dids e.doc.id hs.nodup
+    have hne' : st'.events ≠ [] := by
+      intro hnil; have := hperm.length_eq; rw [hnil] at this; simp at this
+    -- chain length = event count, last version = length - 1
+    have hchainlen : st'.chain.length = st'.events.length := applyAll_length hinv'.chain
+    have hevlen : st'.events.length = (s.get e.doc.id).events.length + 1 := by
+      rw [hperm.length_eq]; simp
+    refine ⟨?_, ?_, ?_, ?_⟩
+    · exact keys_alPut _ _ _ hs.nodup
+    · intro p hp
+      unfold alPut at hp
+      rcases List.mem_cons.mp hp with rfl | hp
+      · exact ⟨hinv', hne'⟩
+      · exact hs.each p (List.mem_filter.mp hp).1
+    · -- document count
+      simp only [alPut, List.length_cons]
+      cases hlast : st'.chain.getLast? with
+      | none =>
+        exfalso
+        have : st'.chain = [] := List.getLast?_eq_none_iff.mp hlast
+        rw [this] at hchainlen; simp at hchainlen
+        exact hne' (List.eq_nil_of_length_eq_zero hchainlen.symm)
+      | some p =>
+        have hv := applyAll_last_version cfg st'.events st'.events none st'.chain hinv'.chain p hlast
+        simp only [nextVersion, Nat.add_zero] at hv
+        cases hg : alGet s.dids e.doc.id with
+        | none =>
+          have hst : s.get e.doc.id = {} := by simp [Store.get, hg]
+          rw [hst] at hevlen
+          simp only [hg, Option.isSome_none, Bool.false_eq_true, if_false, Nat.add_zero] at hlen
+          have : p.2.version = 0 := by
+            have : st'.events.length = 1 := by simpa using hevlen
+            omega
+          simp only [this, if_true]
+          rw [hs.docs]; omega
+        | some st =>
+          have hst : s.get e.doc.id = st := by simp [Store.get, hg]
+          have hne : st.events ≠ [] := (hs.each _ (alGet_some_mem _ _ _ hg)).2
+          have hpos : 0 < st.events.length := List.length_pos_iff.mpr hne
+          rw [hst] at hevlen
+          simp only [hg, Option.isSome_some, if_true] at hlen
+          have : p.2.version ≠ 0 := by omega
+          simp only [this, if_false]
+          rw [hs.docs]; omega
+    · -- conflicted count
+      simp only [alPut, List.filter_cons]
+      have hwas : (s.get e.doc.id).conflicted = true ↔ (alGet s.dids e.doc.id).map (fun st : DidState => st.conflicted) = some true := by
+        unfold Store.get
+        cases alGet s.dids e.doc.id with
+        | none => simp
+        | some st => simp
+      rw [hs.confl, hcnt]
+      by_cases hnow : st'.conflicted = true <;> by_cases hw : (s.get e.doc.id).conflicted = true
+      · simp only [hnow, hw, if_true, List.length_cons, (hwas.mp hw)]
+      · have : ¬ ((alGet s.dids e.doc.id).map (fun st : DidState => st.conflicted) = some true) := fun x => hw (hwas.mpr x)
+        simp only [hnow, hw, if_true, Bool.false_eq_true, if_false, List.length_cons, this, Nat.add_zero]
+      · simp only [hnow, hw, if_true, Bool.false_eq_true, if_false, (hwas.mp hw)]; omega
+      · have : ¬ ((alGet s.dids e.doc.id).map (fun st : DidState => st.conflicted) = some true) := fun x => hw (hwas.mpr x)
+        simp only [hnow, hw, Bool.false_eq_true, if_false, this, Nat.add_zero]
+
+theorem addAll_storeInv (cfg : Cfg) : ∀ (l : List Event) (s s' : Store), StoreInv cfg s → addAll cfg s l = .ok s' →
+    StoreInv cfg s' := by
+  intro l
+  induction l with
+  | nil => intro s s' hs h; simp only [addAll, Res.ok.injEq] at h; subst h; exact hs
+  | cons e es ih =>
+    intro s s' hs h
+    unfold addAll at h
+    split at h
+    · rename_i s1 h1
+      exact ih s1 s' (add_storeInv cfg s s1 e hs h1) h
+    · cases h
+    · cases h
+
+/-- under the invariant, a DID is listed iff its state has events -/
+theorem mem_keys_iff (cfg : Cfg) (s : Store) (hs : StoreInv cfg s) (k : String) :
+    k ∈ keys s ↔ (s.get k).events ≠ [] := by
+  unfold Store.get
+  constructor
+  · intro hk
+    obtain ⟨p, hp, rfl⟩ := List.mem_map.mp hk
+    rw [alGet_of_mem s.dids p hs.nodup hp]
+    exact (hs.each p hp).2
+  · intro hne
+    apply Classical.byContradiction
+    intro hk
+    rw [alGet_none_of_not_mem s.dids k hk] at hne
+    exact hne rfl
+
+end Nuts.C10
+
+namespace Nuts.C10
+
+def conflKeys (s : Store) : List String := (s.dids.filter (fun p => p.2.conflicted)).map (·.1)
+
+theorem conflKeys_nodup (cfg : Cfg) (s : Store) (hs : StoreInv cfg s) : (conflKeys s).Nodup :=
+  List.Nodup.sublist (List.Sublist.map _ List.filter_sublist) hs.nodup
+
+theorem mem_conflKeys_iff (cfg : Cfg) (s : Store) (hs : StoreInv cfg s) (k : String) :
+    k ∈ conflKeys s ↔ (k ∈ keys s ∧ (s.get k).conflicted = true) := by
+  unfold conflKeys
+  constructor
+  · intro hk
+    obtain ⟨p, hp, rfl⟩ := List.mem_map.mp hk
+    obtain ⟨hp1, hp2⟩ := List.mem_filter.mp hp
+    refine ⟨List.mem_map.mpr ⟨p, hp1, rfl⟩, ?_⟩
+    unfold Store.get
+    rw [alGet_of_mem s.dids p hs.nodup hp1]
+    exact hp2
+  · rintro ⟨hk, hc⟩
+    obtain ⟨p, hp, rfl⟩ := List.mem_map.mp hk
+    apply List.mem_map.mpr
+    refine ⟨p, List.mem_filter.mpr ⟨hp, ?_⟩, rfl⟩
+    unfold Store.get at hc
+    rw [alGet_of_mem s.dids p hs.nodup hp] at hc
+    exact hc
+
+/-- the counters are determined by the per-DID states -/
+theorem counts_determined (cfg₁ cfg₂ : Cfg) (s₁ s₂ : Store) (h₁ : StoreInv cfg₁ s₁) (h₂ : StoreInv cfg₂ s₂)
+    (hget : ∀ k, s₁.get k = s₂.get k) :
+    s₁.documentCount = s₂.documentCount ∧ s₁.conflictedCount = s₂.conflictedCount := by
+  constructor
+  · rw [h₁.docs, h₂.docs]
+    have hp : (keys s₁).Perm (keys s₂) := by
+      apply (List.perm_ext_iff_of_nodup h₁.nodup h₂.nodup).mpr
+      intro k
+      rw [mem_keys_iff cfg₁ s₁ h₁ k, mem_keys_iff cfg₂ s₂ h₂ k, hget k]
+    have := hp.length_eq
+    simpa [keys] using this
+  · rw [h₁.confl, h₂.confl]
+    have hp : (conflKeys s₁).Perm (conflKeys s₂) := by
+      apply (List.perm_ext_iff_of_nodup (conflKeys_nodup cfg₁ s₁ h₁) (conflKeys_nodup cfg₂ s₂ h₂)).mpr
+      intro k
+      rw [mem_conflKeys_iff cfg₁ s₁ h₁ k, mem_conflKeys_iff cfg₂ s₂ h₂ k,
+        mem_keys_iff cfg₁ s₁ h₁ k, mem_keys_iff cfg₂ s₂ h₂ k, hget k]
+    have := hp.length_eq
+    simpa [conflKeys] using this
+
+end Nuts.C10
